@@ -1386,6 +1386,15 @@ func (e *Engine) execRange(s *ast.RangeStmt, st *State, label string) *State {
 	case *types.Map:
 		isMap = true
 		length = e.mapLen(st, coll, u)
+		if !e.bv && e.bound == 0 {
+			// the key function of this loop (see below); declared here so that invariants can name it on entry
+			fn := fmt.Sprintf("mkey!%d", ord)
+			e.declareFun(fn, []string{e.isort()}, e.sortOf(u.Key()))
+			if e.mapKeyFn == nil {
+				e.mapKeyFn = map[int]string{}
+			}
+			e.mapKeyFn[ord] = fn
+		}
 	case *types.Chan:
 		e.abstract("range over channel", s.Pos())
 		e.havocAll(st)
@@ -1499,6 +1508,27 @@ func (e *Engine) execRange(s *ast.RangeStmt, st *State, label string) *State {
 		}
 	case *types.Map:
 		kv := e.havocValue("mk", u.Key())
+		if !m.all && !m.heaps[mapHasName(u)] && !e.bv && e.bound == 0 {
+			// the loop does not add or remove keys: the iteration visits the keys present at entry in some order,
+			// each once. The j-th key visited is mkey(j) (named rangeKeyStr(n, j) in contracts); keys at different
+			// positions are different.
+			fn := fmt.Sprintf("mkey!%d", ord)
+			ks := e.sortOf(u.Key())
+			e.declareFun(fn, []string{e.isort()}, ks)
+			if e.mapKeyFn == nil {
+				e.mapKeyFn = map[int]string{}
+			}
+			e.mapKeyFn[ord] = fn
+			kv = Value{sx(fn, hk), u.Key()}
+			e.assume("true", e.rangeFact(kv.T, u.Key()))
+			if !e.declared["mkeydistinct:"+fn] {
+				e.declared["mkeydistinct:"+fn] = true
+				ki, kj := Value{sx(fn, "i!m"), u.Key()}, Value{sx(fn, "j!m"), u.Key()}
+				e.assumes = append(e.assumes, fmt.Sprintf("(forall ((i!m %s) (j!m %s)) (! (=> (and (<= 0 i!m) (< i!m j!m) (< j!m %s)) (not (= %s %s))) :pattern (%s %s)))",
+					e.isort(), e.isort(), length, e.keyTerm(ki), e.keyTerm(kj), ki.T, kj.T))
+			}
+			e.stubsUsed["range over a map that the loop does not modify: visits each key present at entry exactly once (rangeKey)"] = true
+		}
 		e.refBound(body, kv)
 		vv, has := e.mapGet(body, coll, u, kv)
 		e.assume(body.pc, has)
